@@ -102,20 +102,23 @@ func genLogSites() {
 	b.WriteString("]\n\n")
 	// the fields masked before the start-up banner is printed
 	cf := parseFile(fset, "pkg/config/config.go")
-	var masked []string
+	var masked, maskedRhs []string
 	if cf != nil {
 		ast.Inspect(cf, func(n ast.Node) bool {
 			as, ok := n.(*ast.AssignStmt)
-			if ok && len(as.Lhs) == 1 {
+			if ok && len(as.Lhs) == 1 && len(as.Rhs) == 1 {
 				l := src(fset, as.Lhs[0])
 				if strings.HasPrefix(l, "masked.") {
 					masked = append(masked, strings.TrimPrefix(l, "masked."))
+					maskedRhs = append(maskedRhs, fmt.Sprintf("(%s, %s)", strconv.Quote(strings.TrimPrefix(l, "masked.")), strconv.Quote(src(fset, as.Rhs[0]))))
 				}
 			}
 			return true
 		})
 	}
 	fmt.Fprintf(&b, "def maskedConfigFields : List String := %s\n\n", qs(masked))
+	// what each masked field is overwritten WITH (the expression): a masker that depends on the secret's own text can miss it
+	fmt.Fprintf(&b, "def maskedConfigAssignments : List (String × String) := [%s]\n\n", strings.Join(maskedRhs, ", "))
 	// what internal/http.Attributes puts into every request log entry, and what its helpers read from a cookie
 	rf := parseFile(fset, "internal/http/request.go")
 	var attrs, cookieReads []string
